@@ -72,4 +72,5 @@ run C40 && mut C40 x/pairing/keeper/scores/score.go 'if randomValue <= newScoreS
 run C16 && mut C16 x/epochstorage/keeper/fixated_params.go '	} else if latestParamChange >= prevEpochStart {' '	} else if latestParamChange > prevEpochStart {'
 run C13 && mut C13 x/fixationstore/types/fixationstore.go '		if latestEntry.HasDeleteAt() {' '		if latestEntry.HasDeleteAt() && block > ctxBlock {'
 run C02 && mut C02 x/pairing/keeper/filters/frozen_providers_filter.go 'return stakeEntry.StakeAppliedBlock > currentEpoch' 'return stakeEntry.StakeAppliedBlock > currentEpoch+1000'
+run C20 && mut C20 x/conflict/keeper/vote.go '	halfTotalVotes := totalVotes.Quo(sdk.NewIntFromUint64(MajorityDiv))' '	halfTotalVotes := totalVotes.Quo(sdk.NewIntFromUint64(MajorityDiv)).SubRaw(1)'
 exit 0
